@@ -254,6 +254,8 @@ class Module:
                 self.tree = ast.parse(src, filename=rel)
             except SyntaxError as e:
                 raise AnalysisError('cannot parse %s: %s' % (rel, e))
+            from .canon import canonicalize
+            self.tree = canonicalize(self.tree)
         self.classes = {}
         self.funcs   = {}
         self.assigns = {}     # name -> [value expr] (module top level)
